@@ -3,6 +3,7 @@
 use super::{replay_with, Prop, Sub};
 use crate::engine::{nopanic, run_strategy, Ctx, Obs};
 use crate::gen::TreeParams;
+use crate::jser::Jser;
 use crate::model::*;
 use crate::pathmodel::*;
 use jsonb::jsonpath::{parse_json_path, Mode, Selector};
@@ -21,12 +22,19 @@ pub fn prop() -> Prop {
                item with a three-valued model evaluator over the tree (cross-kind ordering comparisons are \
                'unknown': such items may but need not appear); every entry point must return Ok or Err, never \
                panic. Non-trivial = fully determined result, path with >= 2 steps and a non-empty result, or a \
-               predicate with a determined answer. Distinct = distinct (document, path text).",
+               predicate with a determined answer. Distinct = distinct (document, path text). Every selection is \
+               also made into buffers that already hold an earlier result (appended part and prior part compared \
+               with the empty-buffer run). handbuilt: every sequence of up to three path elements built from the \
+               public AST types (incl. `@` first, `$` in the middle, a predicate followed by steps) x three \
+               documents, enumerated: every entry point returns, never panics.",
         assumptions: &[
             "pathmodel.rs evaluator (from README's operator table and the statement) is the documented meaning",
             "ordering comparisons between values of different kinds are unspecified and not asserted",
         ],
-        subs: vec![Sub { name: "eval", run, replay: |j| replay_with::<PathCase>(j, check) }],
+        subs: vec![
+            Sub { name: "eval", run, replay: |j| replay_with::<PathCase>(j, check) },
+            Sub { name: "handbuilt", run: run_handbuilt, replay: |j| replay_with::<(Vec<u8>, u8)>(j, check_handbuilt) },
+        ],
     }
 }
 
@@ -265,4 +273,85 @@ pub fn case_from_bytes(data: &[u8]) -> Option<PathCase> {
     let ast = derive_path_ast(&doc, &ch);
     let path = print(&ast, &mut Style::new(&ch, ch.first().map(|x| x % 2 == 0).unwrap_or(true)));
     Some(PathCase { doc, path })
+}
+
+
+// ---- paths built from the public AST types rather than parsed ---------------------------------
+// "a path the evaluator cannot handle is reported as an error": element sequences the parser
+// never produces (`@` first, `$` in the middle, a predicate followed by steps) must not panic.
+
+fn handbuilt_element(code: u8) -> jsonb::jsonpath::Path<'static> {
+    use jsonb::jsonpath as jp;
+    use std::borrow::Cow;
+    let cmp = |l: jp::PathValue<'static>| {
+        Box::new(jp::Expr::BinaryOp {
+            op: jp::BinaryOperator::Eq,
+            left: Box::new(jp::Expr::Paths(vec![jp::Path::Current])),
+            right: Box::new(jp::Expr::Value(Box::new(l))),
+        })
+    };
+    match code % 10 {
+        0 => jp::Path::Root,
+        1 => jp::Path::Current,
+        2 => jp::Path::DotWildcard,
+        3 => jp::Path::BracketWildcard,
+        4 => jp::Path::DotField(Cow::Borrowed("a")),
+        5 => jp::Path::ArrayIndices(vec![jp::ArrayIndex::Index(jp::Index::Index(0))]),
+        6 => jp::Path::ArrayIndices(vec![jp::ArrayIndex::Slice((jp::Index::LastIndex(-1), jp::Index::LastIndex(0)))]),
+        7 => jp::Path::FilterExpr(cmp(jp::PathValue::Number(jsonb::Number::UInt64(1)))),
+        8 => jp::Path::Predicate(cmp(jp::PathValue::Null)),
+        _ => jp::Path::ObjectField(Cow::Borrowed("a")),
+    }
+}
+
+pub fn check_handbuilt(c: &(Vec<u8>, u8), obs: &mut Obs) -> Result<(), String> {
+    use jsonb::jsonpath as jp;
+    let doc = match c.1 % 3 {
+        0 => M::Obj([("a".to_string(), M::Arr(vec![M::Num(N::U(1)), M::Null]))].into_iter().collect()),
+        1 => M::Arr(vec![M::Num(N::U(1)), M::Obj([("a".to_string(), M::Num(N::U(1)))].into_iter().collect())]),
+        _ => M::Num(N::U(1)),
+    }
+    .enc();
+    let build = || jp::JsonPath { paths: c.0.iter().map(|x| handbuilt_element(*x)).collect() };
+    let shown = format!("{:?}", build());
+    for mode in [Mode::All, Mode::First, Mode::Array, Mode::Mixed] {
+        nopanic(&format!("select({mode:?}) of the hand-built path {shown}"), || {
+            let (mut d, mut o) = (Vec::new(), Vec::new());
+            let _ = Selector::new(build(), mode.clone()).select(&doc, &mut d, &mut o);
+        })?;
+    }
+    nopanic(&format!("path_exists / path_match of the hand-built path {shown}"), || {
+        let _ = jsonb::path_exists(&doc, build());
+        let _ = jsonb::path_match(&doc, build());
+    })?;
+    obs.nt_if(c.0.first().map(|x| x % 10 != 0).unwrap_or(false) || c.0.iter().skip(1).any(|x| x % 10 <= 1));
+    obs.label_if(c.0.first().map(|x| x % 10 == 1).unwrap_or(false), "current-item-first");
+    Ok(())
+}
+
+fn run_handbuilt(ctx: &mut Ctx) {
+    let mut cases: Vec<Vec<u8>> = vec![vec![]];
+    for a in 0..10u8 {
+        cases.push(vec![a]);
+        for b in 0..10u8 {
+            cases.push(vec![a, b]);
+            for c in 0..10u8 {
+                cases.push(vec![a, b, c]);
+            }
+        }
+    }
+    for (k, codes) in cases.into_iter().enumerate() {
+        for d in 0..3u8 {
+            if (k * 3 + d as usize) % ctx.nworkers != ctx.worker || ctx.failure.is_some() {
+                continue;
+            }
+            let c = (codes.clone(), d);
+            let mut obs = Obs::default();
+            match crate::engine::guard(|| check_handbuilt(&c, &mut obs)) {
+                Ok(Ok(())) => ctx.record(|| c.to_j(), &obs),
+                Ok(Err(m)) => ctx.fail("handbuilt", c.to_j(), m),
+                Err(p) => ctx.fail("handbuilt", c.to_j(), format!("unexpected {}", p.describe())),
+            }
+        }
+    }
 }
